@@ -65,10 +65,10 @@ func writeTar(ms []tarMember) []byte {
 
 // groupSnapshot is what the property compares per exported group.
 type groupSnapshot struct {
-	meta, msgs   []string // entry CIDs, sorted
-	metaHeads    []string
-	msgHeads     []string
-	state        string
+	meta, msgs []string // entry CIDs, sorted
+	metaHeads  []string
+	msgHeads   []string
+	state      string
 }
 
 func snapshotGroup(gc *GroupContext) groupSnapshot {
@@ -111,12 +111,12 @@ func (a groupSnapshot) diff(b groupSnapshot) string {
 }
 
 type c20Source struct {
-	ops      []c20Op
-	archive  []byte
+	ops                                 []c20Op
+	archive                             []byte
 	accountPK, accountGroupPK, devicePK []byte
-	groups   map[string]groupSnapshot   // by group pk (hex)
-	groupDef map[string]*protocoltypes.Group
-	dagBytes map[string][]byte // CID -> raw node bytes of every exported log entry
+	groups                              map[string]groupSnapshot // by group pk (hex)
+	groupDef                            map[string]*protocoltypes.Group
+	dagBytes                            map[string][]byte // CID -> raw node bytes of every exported log entry
 	// what the message listing of each opened group returns on the exporting node (entry id = payload)
 	messages map[string][]string
 }
@@ -124,7 +124,9 @@ type c20Source struct {
 // buildSource runs a history on a fresh service and exports.
 func buildSource(t testing.TB, seed int64, ops []c20Op) *c20Source {
 	ctx := context.Background()
+	openMu.Lock()
 	tp, cleanup := NewTestingProtocol(ctx, t, nil, nil)
+	openMu.Unlock()
 	defer cleanup()
 	svc := tp.Service.(*service)
 	g1 := vDetGroup(seed, "c20-G1")
@@ -136,14 +138,18 @@ func buildSource(t testing.TB, seed int64, ops []c20Op) *c20Source {
 			_, _ = tp.Service.ContactRequestSend(ctx, &protocoltypes.ContactRequestSend_Request{Contact: contact})
 		case "contact-activate":
 			if gi, err := tp.Service.GroupInfo(ctx, &protocoltypes.GroupInfo_Request{ContactPk: xpk}); err == nil {
+				openMu.Lock()
 				_, _ = tp.Service.ActivateGroup(ctx, &protocoltypes.ActivateGroup_Request{GroupPk: gi.Group.PublicKey})
+				openMu.Unlock()
 				_, _ = tp.Service.AppMessageSend(ctx, &protocoltypes.AppMessageSend_Request{GroupPk: gi.Group.PublicKey, Payload: []byte("contact group message")})
 			}
 		case "contact-block":
 			_, _ = tp.Service.ContactBlock(ctx, &protocoltypes.ContactBlock_Request{ContactPk: xpk})
 		case "join-activate-G1":
 			_, _ = tp.Service.MultiMemberGroupJoin(ctx, &protocoltypes.MultiMemberGroupJoin_Request{Group: g1})
+			openMu.Lock()
 			_, _ = tp.Service.ActivateGroup(ctx, &protocoltypes.ActivateGroup_Request{GroupPk: g1.PublicKey})
+			openMu.Unlock()
 		case "message-account":
 			cfg, _ := tp.Service.ServiceGetConfiguration(ctx, &protocoltypes.ServiceGetConfiguration_Request{})
 			_, _ = tp.Service.AppMessageSend(ctx, &protocoltypes.AppMessageSend_Request{GroupPk: cfg.AccountGroupPk, Payload: []byte("account message")})
@@ -197,6 +203,16 @@ func buildSource(t testing.TB, seed int64, ops []c20Op) *c20Source {
 	cfg, err := tp.Service.ServiceGetConfiguration(ctx, &protocoltypes.ServiceGetConfiguration_Request{})
 	vmust(err)
 	src := &c20Source{ops: ops, accountPK: cfg.AccountPk, accountGroupPK: cfg.AccountGroupPk, devicePK: cfg.DevicePk, groups: map[string]groupSnapshot{}, groupDef: map[string]*protocoltypes.Group{}, dagBytes: map[string][]byte{}}
+	// nothing must be appended while the export runs: every activated group has published its own announcement
+	svc.lock.RLock()
+	var open []*GroupContext
+	for _, gc := range svc.openedGroups {
+		open = append(open, gc)
+	}
+	svc.lock.RUnlock()
+	for _, gc := range open {
+		waitOwnAnnouncement(gc)
+	}
 	var buf bytes.Buffer
 	vmust(svc.export(ctx, &buf))
 	src.archive = buf.Bytes()
